@@ -185,6 +185,10 @@ class GridFlow(WidgetWrap[Pile], WidgetContainerMixin, WidgetContainerListConten
 
     @cell_width.setter
     def cell_width(self, width: int) -> None:
+        if not self.contents:
+            # nothing to re-size, and no focus position to keep
+            self._cell_width = width
+            return
         focus_position = self.focus_position
         self.contents = [(w, (WHSettings.GIVEN, width)) for (w, options) in self.contents]
         self.focus_position = focus_position
